@@ -77,6 +77,11 @@ func (c *Ctx) RuleNarrow() *Result {
 			if !(db < sb || (db == sb && ss != ds)) {
 				return
 			}
+			if db == sb && db == 64 {
+				// int(uint) and uint(int) at full width: only values beyond 2^63 change, which no count, width
+				// or offset of this program comes near; the rule is about conversions that lose bits
+				return
+			}
 			res.Instances++
 			key := fmt.Sprintf("%s:%s(%s)", load.FnName(fn), cv.Type().String(), cv.X.Type().String())
 			pos := c.P.InstrPos(cv)
@@ -443,6 +448,29 @@ func (c *Ctx) RuleSiblingRuleId() *Result {
 							break
 						}
 					}
+					// a field of the record that a repository helper returns (the parsed argument as a struct)
+					if base, fi, isField := fieldRead(a); isField {
+						if vals, H := c.structResultField(base, fi); len(vals) > 0 {
+							bad := ""
+							for _, v := range vals {
+								switch y := v.(type) {
+								case *ssa.Const:
+								case *ssa.Convert:
+									if _, ok := parseCallOf(y.X); !ok {
+										bad = "is not the result of the guarded 8-bit parse in " + load.FnName(H)
+									}
+								default:
+									bad = fmt.Sprintf("has an unrecognised origin in %s (%T)", load.FnName(H), v)
+								}
+							}
+							if bad == "" {
+								res.ok(key, c.P.InstrPos(call), "a field of the record returned by "+load.FnName(H)+", filled from the guarded ParseUint result (NARROW)")
+							} else {
+								res.bad(key, c.P.InstrPos(call), "the chain offset handed on "+bad)
+							}
+							break
+						}
+					}
 					res.bad(key, c.P.InstrPos(call), "the chain offset handed on has an unrecognised origin")
 				case *ssa.Extract, *ssa.Call:
 					// the result of a repository helper that does the guarded parse
@@ -632,6 +660,106 @@ func canonicalRegion(fn *ssa.Function, from, to ssa.Instruction) []string {
 	return out
 }
 
+// fieldRead: v reads field i of a struct value: x.f on a value, or a load of &local.f where the
+// local is assigned once (a struct variable is kept in memory by the SSA builder).
+func fieldRead(v ssa.Value) (base ssa.Value, field int, ok bool) {
+	switch x := v.(type) {
+	case *ssa.Field:
+		return x.X, x.Field, true
+	case *ssa.UnOp:
+		fa, isFA := x.X.(*ssa.FieldAddr)
+		if !isFA || x.Op != token.MUL {
+			return nil, 0, false
+		}
+		al, isAlloc := fa.X.(*ssa.Alloc)
+		if !isAlloc {
+			return nil, 0, false
+		}
+		var stored ssa.Value
+		n := 0
+		for _, r := range referrers(al) {
+			if st, isSt := r.(*ssa.Store); isSt && st.Addr == ssa.Value(al) {
+				stored = st.Val
+				n++
+			}
+		}
+		if n == 1 {
+			return stored, fa.Field, true
+		}
+	}
+	return nil, 0, false
+}
+
+// structResultField: f reads a field of a struct value that a helper of the repository returns;
+// the values the helper stores into that field of the composite it returns, over all returns
+// that are not failures. nil when the shape is not recognised.
+func (c *Ctx) structResultField(base ssa.Value, field int) ([]ssa.Value, *ssa.Function) {
+	var hc *ssa.Call
+	idx := 0
+	switch x := stripConv(base).(type) {
+	case *ssa.Extract:
+		hc, _ = x.Tuple.(*ssa.Call)
+		idx = x.Index
+	case *ssa.Call:
+		hc = x
+	}
+	if hc == nil {
+		return nil, nil
+	}
+	H := staticFn(&hc.Call)
+	if H == nil || !c.P.IsRepoFn(H) || len(H.Blocks) == 0 {
+		return nil, nil
+	}
+	var vals []ssa.Value
+	ok := true
+	allInstrs(H, func(in ssa.Instruction) {
+		r, isRet := in.(*ssa.Return)
+		if !isRet || idx >= len(r.Results) || c.Loud().BlockDies(r.Block()) {
+			return
+		}
+		if e := retErrOperand(r); e != nil && len(r.Results) > 1 && (errOperandAlwaysNonNil(e) || domFacts(r.Block())[e] == nonNil || c.factsNonNil(r.Block(), e)) {
+			return // a failing return carries no record
+		}
+		if e := retErrOperand(r); e != nil && len(r.Results) > 1 {
+			if gl, isLd := stripErrConv(e).(*ssa.UnOp); isLd {
+				if g, isG := gl.X.(*ssa.Global); isG && c.sentinelNeverNil(g) {
+					return // a sentinel error
+				}
+			}
+		}
+		ld, isLoad := stripConv(r.Results[idx]).(*ssa.UnOp)
+		if !isLoad {
+			ok = false
+			return
+		}
+		al, isAlloc := ld.X.(*ssa.Alloc)
+		if !isAlloc {
+			ok = false
+			return
+		}
+		n := 0
+		for _, rr := range referrers(al) {
+			fa, isFA := rr.(*ssa.FieldAddr)
+			if !isFA || fa.Field != field {
+				continue
+			}
+			for _, r3 := range referrers(fa) {
+				if st, isSt := r3.(*ssa.Store); isSt && st.Addr == ssa.Value(fa) {
+					vals = append(vals, st.Val)
+					n++
+				}
+			}
+		}
+		if n == 0 {
+			ok = false
+		}
+	})
+	if !ok {
+		return nil, H
+	}
+	return vals, H
+}
+
 // RuleSiblingLocator: the operand is read back by the same computation that
 // wrote it (C12).
 func (c *Ctx) RuleSiblingLocator() *Result {
@@ -657,6 +785,7 @@ func (c *Ctx) RuleSiblingLocator() *Result {
 			}
 		})
 		locFn, locTo := s.fn, ssa.Instruction(s.call)
+		sharedDone := false
 		// the match may sit in a helper that is handed one line: the locator then is the caller's,
 		// from its split to the call of the helper (two levels)
 		for lift := 0; split == nil && lift < 2; lift++ {
@@ -665,6 +794,34 @@ func (c *Ctx) RuleSiblingLocator() *Result {
 				if cc := callCommon(e.Site); cc != nil && staticFn(cc) == locFn && c.liveFn(e.Caller) {
 					callers = append(callers, e.Site)
 				}
+			}
+			if len(callers) > 1 && lift == 0 {
+				// one matching helper shared by the writer and the reader: each caller is a locator of its own,
+				// from its split to its call of the helper
+				all := true
+				var shared []loc
+				for _, site := range callers {
+					var sp ssa.Instruction
+					allInstrs(site.Parent(), func(in ssa.Instruction) {
+						if call, ok := in.(*ssa.Call); ok {
+							f := staticCallee(&call.Call)
+							if (isFn(f, "bytes", "Split") || isFn(f, "strings", "Split")) && instrDominates(call, site) {
+								sp = call
+							}
+						}
+					})
+					if sp == nil {
+						all = false
+						break
+					}
+					shared = append(shared, loc{fn: site.Parent(), from: sp, to: site})
+				}
+				if all {
+					locs = append(locs, shared...)
+					split = shared[0].from
+					sharedDone = true
+				}
+				break
 			}
 			if len(callers) != 1 {
 				break
@@ -682,6 +839,9 @@ func (c *Ctx) RuleSiblingLocator() *Result {
 		if split == nil {
 			res.Instances++
 			res.undecided(load.FnName(s.fn)+":operand locator", c.P.InstrPos(s.call), "the rule line is matched but no split into lines dominates the match: locator shape not recognised")
+			continue
+		}
+		if sharedDone {
 			continue
 		}
 		locs = append(locs, loc{fn: locFn, from: split, to: locTo})
